@@ -207,3 +207,63 @@ Proof.
     repeat split; try lia; destruct s; try lia;
       rewrite ?Z.abs_opp, Z.abs_eq by lia; nia.
 Qed.
+
+(* ---------------------------------------------------------------- float32 values are transmitted exactly *)
+(* k * 2^29 as a positive: a 24-bit mantissa widened to the 53 bits of a normal binary64 *)
+Definition widen (k : positive) : positive := Pos.iter xO k 29.
+
+Lemma digits_widen k : digits2_pos (widen k) = (digits2_pos k + 29)%positive.
+Proof. unfold widen. cbn [Pos.iter]. cbn [digits2_pos]. lia. Qed.
+
+Lemma widen_value k : Zpos (widen k) = Zpos k * 2 ^ 29.
+Proof. unfold widen. cbn [Pos.iter]. lia. Qed.
+
+Lemma round_exact s k ee :
+  digits2_pos k = 24%positive -> -149 <= ee + 29 <= 104 ->
+  binary_round 24 128 s (widen k) ee = S754_finite s k (ee + 29).
+Proof.
+  intros Hd He. unfold binary_round.
+  rewrite digits_widen, Hd.
+  assert (F1 : fexp 24 128 (Z.pos (24 + 29) + ee) = ee + 29) by (unfold fexp, emin; lia).
+  rewrite F1. unfold shl_align.
+  replace (ee + 29 - ee) with 29 by lia. cbv iota beta.
+  unfold binary_round_aux, shr_fexp. cbn [Zdigits2]. rewrite digits_widen, Hd, F1.
+  replace (ee + 29 - ee) with 29 by lia.
+  unfold shr. cbn [shr_record_of_loc].
+  unfold widen. cbn [Pos.iter iter_pos shr_1 orb].
+  cbn [shr_m loc_of_shr_record round_nearest_even Zdigits2]. rewrite Hd.
+  assert (F2 : fexp 24 128 (Z.pos 24 + (ee + 29)) - (ee + 29) = 0) by (unfold fexp, emin; lia).
+  rewrite F2. cbn [shr_m].
+  replace (ee + 29 <=? 128 - 24) with true by lia. reflexivity.
+Qed.
+
+Lemma digits2_bounds p : 2 ^ (Zpos (digits2_pos p) - 1) <= Zpos p < 2 ^ (Zpos (digits2_pos p)).
+Proof.
+  induction p as [p IH|p IH|]; cbn [digits2_pos].
+  - rewrite Pos2Z.inj_succ. replace (Z.succ (Z.pos (digits2_pos p)) - 1) with (Z.succ (Z.pos (digits2_pos p) - 1)) by lia.
+    rewrite !Z.pow_succ_r by lia. lia.
+  - rewrite Pos2Z.inj_succ. replace (Z.succ (Z.pos (digits2_pos p)) - 1) with (Z.succ (Z.pos (digits2_pos p) - 1)) by lia.
+    rewrite !Z.pow_succ_r by lia. lia.
+  - cbn. lia.
+Qed.
+
+(* A caller's float whose value is a normal binary32 number (-1)^s * k * 2^e, k a 24-bit mantissa,
+   -149 <= e <= 104) is converted without error: the field is the IEEE-754 binary32 encoding of exactly
+   that number (sign, biased exponent e + 150, fraction k - 2^23); zeros, infinities and NaN likewise. *)
+Lemma f32_exact s k e :
+  digits2_pos k = 24%positive -> -149 <= e <= 104 ->
+  f32_of_sf64 (S754_finite s (widen k) (e - 29)) = Ok (sign32 s + ((e + 150) * 8388608 + (Zpos k - 8388608))) /\
+  8388608 <= Zpos k < 16777216 /\ 1 <= e + 150 <= 254.
+Proof.
+  intros Hd He. pose proof (digits2_bounds k) as B. rewrite Hd in B. cbn in B.
+  split; [|lia]. unfold f32_of_sf64. rewrite round_exact by (assumption || lia).
+  replace (e - 29 + 29) with e by lia. cbn [bits32_of_sf]. unfold mag32.
+  replace (Z.pos k <? 8388608) with false by lia.
+  rewrite Z.mod_small by lia. reflexivity.
+Qed.
+
+Lemma f32_exact_special :
+  (forall s, f32_of_sf64 (S754_zero s) = Ok (sign32 s)) /\
+  (forall s, f32_of_sf64 (S754_infinity s) = Ok (sign32 s + inf32)) /\
+  f32_of_sf64 S754_nan = Ok nan32.
+Proof. repeat split. Qed.
